@@ -274,11 +274,13 @@ func VerifC06_Programs() {
 				if _, exists := vIndex(before)[p]; exists && err == nil && !vIsUnder(p, q) && !vIsUnder(q, p) {
 					bi := vIndex(before)
 					dirOntoFile := false
-					if dst, there := bi[q]; there && !dst.dir && bi[p].dir {
+					if dst, there := bi[q]; there && !dst.dir && (bi[p].dir || op == 6) {
+						// a directory copied onto a regular file, or a regular file given as the directory to copy into
 						dirOntoFile = true
 					}
+					// (CopyToDirectory leaves no choice: the source lands under its own name inside the directory)
 					verif.AssertKnown("a_successful_copy_delivers_the_source",
-						vDelivered(srcBefore, p, before, after, q) || vDelivered(srcBefore, p, before, after, q+"/"+vlBaseName(p)),
+						(op == 5 && vDelivered(srcBefore, p, before, after, q)) || vDelivered(srcBefore, p, before, after, q+"/"+vlBaseName(p)),
 						"KF-C06-directory-copied-onto-a-file-reports-success", dirOntoFile)
 				}
 			}
